@@ -88,6 +88,50 @@ fn splice(src: &str, edits: &[&E]) -> Option<String> {
   String::from_utf8(out).ok()
 }
 
+/// expansion rules see the bindings of the match: `expandEnd: {pattern: $V}` may only reach a sibling that is
+/// the same code as what `$V` captured
+pub fn check_bound_expansion(lang: SupportLang, lname: &str, fname: &str, src: &str, yaml: &str, var: &str, rep: &mut Report) {
+  let replay = json!({"monitor":"c06","case":"bound-expansion","lang":lname,"file":fname,"source":src,"rule":yaml,"var":var});
+  let r = guarded(|| {
+    let Ok(cfg) = load(yaml) else { return (0u64, vec![]) };
+    let Some(fixer) = cfg.matcher.fixer.as_ref() else { return (0, vec![]) };
+    let grep = lang.ast_grep(src);
+    let mut sigs = vec![];
+    let mut n = 0u64;
+    for nm in Visitor::new(&cfg.matcher).reentrant(false).visit(grep.root()) {
+      let Some(bound) = nm.get_env().get_match(var).map(|b| b.text().to_string()) else { continue };
+      let e = nm.make_edit(&cfg.matcher, fixer);
+      let (start, end) = (e.position, e.position + e.deleted_length);
+      let m = nm.get_node();
+      n += 1;
+      if end > m.range().end {
+        match m.next_all().find(|x| x.range().end == end) {
+          Some(sib) if sib.text() == bound.as_str() => {}
+          Some(sib) => sigs.push(("C06/expand/bound-variable-ignored".to_string(), format!("expandEnd with pattern ${var} (bound to `{}`) reached the sibling `{}`", clip(&bound, 40), clip(&sib.text(), 40)))),
+          None => {}
+        }
+      }
+      if start < m.range().start {
+        match m.prev_all().find(|x| x.range().start == start) {
+          Some(sib) if sib.text() == bound.as_str() => {}
+          Some(sib) => sigs.push(("C06/expand/bound-variable-ignored".to_string(), format!("expandStart with pattern ${var} (bound to `{}`) reached the sibling `{}`", clip(&bound, 40), clip(&sib.text(), 40)))),
+          None => {}
+        }
+      }
+    }
+    (n, sigs)
+  });
+  match r {
+    Ok((n, sigs)) => {
+      rep.count("bound_expansion_matches", n);
+      for (sig, what) in sigs {
+        rep.violation(&sig, &format!("{what} (rule {})", clip(yaml, 200)), replay.clone());
+      }
+    }
+    Err(p) => rep.violation(&format!("C06/panic/{}", p.site()), &format!("panic at {}: {} (rule {})", p.location, p.message, clip(yaml, 200)), replay),
+  }
+}
+
 /// one rule (YAML) on one source
 pub fn check_rule(lang: SupportLang, lname: &str, fname: &str, src: &str, yaml: &str, expanded: bool, rep: &mut Report) -> usize {
   let replay = json!({"monitor":"c06","case":"rule","lang":lname,"file":fname,"source":src,"rule":yaml,"expanded":expanded});
@@ -347,6 +391,15 @@ pub fn run_source(lang: SupportLang, fname: &str, src: &str, n_cases: usize, rng
     let y = yaml_of(json!({"id":"t","language":lname,"rule":{"pattern":cut.pattern},"fix":Value::Object(fixo)}));
     let n = check_rule(lang, &lname, fname, src, &y, true, rep);
     rep.count("edits_expanded", n as u64);
+    // --- expansion rule that mentions a variable bound by the match
+    if let Some((v, _)) = cut.singles.first() {
+      let which = if rng.chance(1, 2) { "expandEnd" } else { "expandStart" };
+      let mut fx = serde_json::Map::new();
+      fx.insert("template".into(), json!("X"));
+      fx.insert(which.into(), json!({"pattern": format!("${v}"), "stopBy": if rng.chance(1, 2) { json!("end") } else { json!("neighbor") }}));
+      let y = yaml_of(json!({"id":"t","language":lname,"rule":{"pattern":cut.pattern},"fix":Value::Object(fx)}));
+      check_bound_expansion(lang, &lname, fname, src, &y, v, rep);
+    }
     // --- rewriters over the captured variable
     if let Some(var) = vars.first() {
       for _attempt in 0..2 {
@@ -418,6 +471,10 @@ pub fn run(ctx: &Ctx, rep: &mut Report) {
     let lang = crate::util::lang_of(lname);
     let src = r["source"].as_str().unwrap();
     rep.evaluations += 1;
+    if r["case"] == "bound-expansion" {
+      check_bound_expansion(lang, lname, "replay", src, r["rule"].as_str().unwrap(), r["var"].as_str().unwrap(), rep);
+      return;
+    }
     if r["case"] == "rewrite" {
       check_rewrite(lang, lname, "replay", src, r["rule"].as_str().unwrap(), &r["spec"], rep);
     } else {
